@@ -182,7 +182,7 @@ def _check_handle(ctx, short: str, info, pname: str, src: str, depth: int) -> No
     aclose = info.methods.get("aclose")
     if aclose is not None:
         aclose = ctx.inlined(aclose)
-    init = info.methods["__init__"]
+    init = ctx.inlined(info.methods["__init__"])
     if aclose is None:
         ctx.fail("R04.3", init, f"class {info.name}", f"handle owns `{pname}` but has no aclose")
         return
@@ -203,7 +203,7 @@ def _check_handle(ctx, short: str, info, pname: str, src: str, depth: int) -> No
             direct = [a for a in v if a[0] in ("iter", "user") and a[1] == src] or \
                      [a for a in v if a[0] == "elems" and a[1][0] in ("iter", "user") and a[1][1] == src]
             if direct:
-                why = _filter_problem(ctx, init, value)
+                why = _filter_problem(ctx, init, value) or _appends_keep_closeable(ctx, init, value)
                 if why:
                     ctx.fail("R04.3", init, n, f"field `{t.attr}` keeps only part of `{pname}`: {why}", node=n)
                 raw_fields.append(t.attr)
@@ -307,6 +307,47 @@ class _CloseableOps:
                 and e.args[1].value in ("aclose", "__anext__", "__aiter__"):
             return True
         return UNKNOWN
+
+
+def _appends_keep_closeable(ctx, unit, value: ast.AST) -> Optional[str]:
+    """``tuple(L)`` / ``L`` where L is a local list filled by ``L.append(x)`` under conditions: an
+    element that is a closeable async iterator must reach the append (conditions are abstractly
+    evaluated for such an element; '' = fine / not applicable)."""
+    v = value
+    if isinstance(v, ast.Call) and norm(v.func).split(".")[-1] in ("tuple", "list") and len(v.args) == 1:
+        v = v.args[0]
+    if not isinstance(v, ast.Name):
+        return None
+    from asl.absint import AbsEval
+    cfg = cfg_of(unit)
+    adds = [n for n in cfg.nodes if n.kind == "call" and not n.tag and isinstance(n.ast.func, ast.Attribute)
+            and isinstance(n.ast.func.value, ast.Name) and n.ast.func.value.id == v.id and n.ast.func.attr == "append"]
+    if not adds:
+        return None
+    ev = AbsEval(_CloseableOps())
+    for a in adds:
+        loops = [x for (k, x) in a.regions if k == "loop" and isinstance(x, ast.For)]
+        if not loops:
+            continue
+        heads = [n for n in cfg.nodes if n.kind == "snext" and n.ast is loops[-1] and not n.tag]
+        for h in heads:
+            body = [s for (lab, s) in h.succ if lab == "n"]
+
+            def edge(p_, lab, q) -> bool:
+                if lab in ("e", "p"):
+                    return False
+                if p_.kind == "branch":
+                    val = ev.eval(p_.ast, {})
+                    if val is True:
+                        return lab == "t"
+                    if val is False:
+                        return lab == "f"
+                    return False  # an uninterpreted condition may drop closeable iterators
+                return True
+
+            if body and find_path(body[0], lambda x, a=a: x is a, edge_ok=edge, include_src=True) is None:
+                return f"`{v.id}.append(...)` is not reached for every closeable async iterator (condition may drop some)"
+    return None
 
 
 def _filter_problem(ctx, unit, value: ast.AST) -> Optional[str]:
